@@ -627,9 +627,20 @@ def rule_recursion_converted(ctx):
     walkers = {f for f in rec if f.module.name.startswith(("stix2.markings.utils", "stix2.base", "stix2.canonicalization", "stix2.utils"))}
     if len(walkers) < 3:
         raise AnalysisError("fewer than 3 recursive content walkers found (%d)" % len(walkers))
+    # helpers of stix2.utils that RENDER a parameter (str(p) / repr(p) / '%s' % p): the built-in conversion walks the value
+    # recursively as well
+    for f in prog.functions.values():
+        if f.module.name != "stix2.utils" or f.cls is not None:
+            continue
+        ps = set(f.all_param_names())
+        for c in body_walk(f.node):
+            if isinstance(c, ast.Call) and isinstance(c.func, ast.Name) and c.func.id in ("str", "repr") and c.args \
+                    and isinstance(c.args[0], ast.Name) and c.args[0].id in ps \
+                    and in_try_catching(c, names=("RecursionError", "RuntimeError", "Exception", "BaseException")) is None:
+                walkers.add(f)
     sbase = prog.cls("stix2.base::_STIXBase")
-    zone = [f for f in prog.functions.values() if (f.cls is not None and sbase in f.cls.mro and f.name == "__init__"
-                                                   and f.module.name in ("stix2.base", "stix2.v21.base"))
+    zone = [f for f in prog.functions.values() if (f.cls is not None and sbase in (f.cls.mro or []) and f.name == "__init__"
+                                                   and not f.module.relpath.startswith("stix2/test") and f.cls.parent_func is None)
             or f.id in ("stix2.parsing::parse_observable", "stix2.parsing::dict_to_stix2")]
     n = 0
     reach_cache = {}
@@ -638,7 +649,11 @@ def rule_recursion_converted(ctx):
             hit = None
             d = prog.deref(prog.resolve_expr(prog.enclosing_scope(call), call.func)) if isinstance(call.func, (ast.Name, ast.Attribute)) else None
             if isinstance(d, External) and d.dotted == "copy.deepcopy":
-                hit = "copy.deepcopy"
+                # of INPUT: something that derives from a parameter other than self (a copy of the class's own tables is not)
+                from ..forward import flow_of
+                pr_ = flow_of(fi).prov(call.args[0]) if call.args else None
+                if pr_ is not None and (set(pr_.params) - {"self", "cls"}):
+                    hit = "copy.deepcopy"
             else:
                 for t in cg.resolve(call, fi):
                     if t.func is None or t.kind != EXACT:
